@@ -45,6 +45,38 @@ theorem rpcTable_opRpc (w : Schema) (f : File) (q0 : List Nat) (g : Rpc → Rpc)
     intro x _
     simp only [Function.comp, hp', false_and, if_false]
 
+/-- rewriting an RPC without touching its NAME keeps the full name of every method -/
+theorem rpcFullNames_opRpc (w : Schema) (f : File) (q0 : List Nat) (g : Rpc → Rpc) (hn : ∀ m, (g m).name = m.name) :
+    (rpcEntries (plantDecl f.path (opRpc q0 g) w)).map (·.full) = (rpcEntries w).map (·.full) := by
+  unfold rpcEntries plantDecl plantFile
+  rw [nonImport_map _ (sel_isImport f.path (mapFile (opRpc q0 g)) (fun _ => rfl)), flatMap_map_left,
+    List.map_flatMap, List.map_flatMap]
+  apply flatMap_congr_mem
+  intro g' _
+  unfold sel
+  split
+  · unfold fileRpcEntries
+    rw [fileRpcs_map, List.map_map, List.map_map, List.map_map]
+    apply List.map_congr_left
+    intro x _
+    simp only [Function.comp, tauRpc, opRpc]
+    show rpcFullName (mapFile (opRpc q0 g) g') _ _ = rpcFullName g' _ _
+    unfold rpcFullName rpcNestedName
+    have hpk : (mapFile (opRpc q0 g) g').pkg = g'.pkg := rfl
+    rw [hpk]
+    have hs : (mapSvc { rpc := fun q m => if q = q0 then g m else m } x.1.dropLast.dropLast x.2.1).name = x.2.1.name := rfl
+    rw [hs]
+    split
+    · rw [hn]
+    · rfl
+  · rfl
+
+/-- … hence the methods keep pairwise distinct full names (what `FullNameToMethod` demands) -/
+theorem fullNamesDistinct_opRpc (w : Schema) (f : File) (q0 : List Nat) (g : Rpc → Rpc) (hn : ∀ m, (g m).name = m.name)
+    (h : FullNamesDistinct w) : FullNamesDistinct (plantDecl f.path (opRpc q0 g) w) := by
+  unfold FullNamesDistinct at h ⊢
+  rw [rpcFullNames_opRpc w f q0 g hn]; exact h
+
 theorem stdNameBad_resp_congr (o : Options) (s : Service) (m m' : Rpc) (hn : m'.name = m.name)
     (ho : m'.outType = m.outType) : stdNameBad o false s m' = stdNameBad o false s m := by
   unfold stdNameBad; simp only [hn, ho, Bool.false_eq_true, if_false]
